@@ -46,6 +46,12 @@ func payloadFault(k int) (*types.Any, string) {
 		m = &errorspb.TestError{}
 	case 12:
 		m = &errorspb.MarkPayload{Msg: "m", Types: []errorspb.ErrorTypeMark{{FamilyName: "f"}}}
+	case 18:
+		m = &errorspb.StringsPayload{Details: []string{"a"}}
+	case 19:
+		m = &errorspb.StringsPayload{Details: []string{"a", "b"}}
+	case 20:
+		m = &errorspb.TagsPayload{Tags: []errorspb.TagPayload{{Tag: "k"}}}
 	case 13, 14, 15, 16, 17:
 		// the type URL of a registered message with bytes that cannot be unmarshalled
 		// (a lone 0xff is an unterminated tag varint for every message type)
@@ -60,7 +66,7 @@ func payloadFault(k int) (*types.Any, string) {
 	return a, a.TypeUrl
 }
 
-const numPayloadFaults = 18
+const numPayloadFaults = 21
 
 // guarded runs f and turns a panic into a failed assertion with the given id.
 func guarded(v *sym.V, id string, f func()) {
@@ -109,8 +115,17 @@ func observeAll(v *sym.V, tag string, e error) {
 // H_C05_Decode: decoding is total for every registered type key under payload,
 // detail and message-type faults.
 func H_C05_Decode(v *sym.V) {
-	which := v.Choice("registry", 3)
-	key := v.RegistryKey("key", which)
+	// registries: leaf / wrapper / multi-cause decoders, and (3, 4) the leaf / wrapper
+	// encoder registries, whose keys include types that have no decoder and
+	// therefore always arrive as opaque errors (e.g. the stack annotations)
+	reg := v.Choice("registry", 5)
+	key := v.RegistryKey("key", reg)
+	which := reg
+	if reg == 3 {
+		which = 0
+	} else if reg == 4 {
+		which = 1
+	}
 	pf, _ := payloadFault(v.Choice("payload", numPayloadFaults))
 	nd := v.Choice("ndetails", 3)
 	var details []string
